@@ -663,92 +663,125 @@ pub fn run_e2e(args: &Args) {
     });
 }
 
-/// Directed probe (not part of any check): a ligature anchor with a large component index, `top_<idx>`.
-/// `vharness c10probe --seed <idx> --n 1`
-pub fn run_probe(args: &Args) {
-    let idx = args.seed;
-    crate::run_cases("c10probe", args, move |_| {
-        let mut rng = Rng::new(1);
-        let mut o = design::GenOpts::default();
-        o.max_axes = 1; o.max_glyphs = 3; o.composites = false; o.sparse = false; o.intermediate = false;
-        let mut d = design::gen_design(&mut rng, &o);
-        d.masters.truncate(1);
-        let names: Vec<String> = d.glyph_order.clone().unwrap();
-        let dm = d.default_master;
-        d.masters[dm].glyphs.get_mut(&names[0]).unwrap().anchors = vec![(format!("top_{idx}"), 100.0, 200.0), ("top_1".into(), 10.0, 20.0)];
-        d.masters[dm].glyphs.get_mut(&names[1]).unwrap().anchors = vec![("_top".into(), 50.0, 60.0)];
-        let tmp = build::tmpdir("c10probe");
-        let ds = write::write_design(tmp.path(), &d);
-        let t0 = std::time::Instant::now();
-        let res = build::compile(&ds, &build::BuildOpts::default());
-        let dt = t0.elapsed().as_millis();
-        match res {
-            Ok(bytes) => vec![S::k1("result", S::atom("ok")), S::k1("bytes", S::usize(bytes.len())), S::k1("ms", S::usize(dt as usize)), dump_gpos_marks(&bytes)],
-            Err(e) => vec![S::kv("result", [S::atom("err"), S::atom(e.replace(' ', "_").chars().take(300).collect::<String>())]), S::k1("ms", S::usize(dt as usize))],
-        }
-    });
+// ------------------------------------------------------------------------------------------------ directed stream
+
+/// What one directed case builds.
+#[derive(Clone, Copy, Debug)]
+pub enum Big {
+    /// `n` base glyphs `b0..` with one `top` anchor each (pairwise different positions) and the mark `acutecomb` (`_top`)
+    Bases { n: usize, variable: bool },
+    /// a ligature `f_i` with `top_1` and `top_<index>`, and the mark `acutecomb` (`_top`)
+    LigIndex { index: usize },
 }
 
-/// Directed probe (not part of any check): `n` base glyphs with a `top` anchor each (distinct coordinates) and one mark.
-/// `vharness c10probe2 --seed <n> --n 1`
-pub fn run_probe2(args: &Args) {
-    let n = args.seed as usize;
-    let variable = args.rest.iter().any(|r| r == "variable");
-    let args = &Args { seed: args.seed, n: 1, from: 0, rest: vec![] };
-    crate::run_cases("c10probe2", args, move |_| {
-        let mut rng = Rng::new(1);
-        let mut o = design::GenOpts::default();
-        o.max_axes = 1; o.max_glyphs = 2; o.composites = false; o.sparse = false; o.intermediate = false;
-        let mut d = design::gen_design(&mut rng, &o);
-        d.masters.truncate(1);
-        let dm = d.default_master;
-        let mut order = vec![];
-        d.masters[dm].glyphs.clear();
-        d.codepoints.clear();
-        for i in 0..n {
-            let name = format!("b{i}");
-            let g = design::GlyphDef { advance: 500.0, anchors: vec![("top".into(), (i % 3000) as f64, 500.0 + (i / 3000) as f64)], ..Default::default() };
-            d.masters[dm].glyphs.insert(name.clone(), g);
-            order.push(name);
-        }
-        d.masters[dm].glyphs.insert("acutecomb".into(), design::GlyphDef { advance: 0.0, anchors: vec![("_top".into(), 50.0, 60.0)], ..Default::default() });
-        order.push("acutecomb".into());
-        d.glyph_order = Some(order);
-        if variable {
-            // a second master at the axis maximum (or minimum) with every anchor moved by a different amount
-            let a = &d.axes[0];
-            let other = if a.default < a.max { a.max } else { a.min };
-            let mut m = d.masters[dm].clone();
-            m.name = "M1".into(); m.style = "Other".into(); m.loc = vec![other];
-            for (i, (_, g)) in m.glyphs.iter_mut().enumerate() {
-                for an in g.anchors.iter_mut() { an.1 += 1.0 + (i % 97) as f64; an.2 += 1.0 + (i % 89) as f64; }
+pub fn big_case(i: usize) -> Big {
+    match i {
+        0 => Big::Bases { n: 8200, variable: false },
+        1 => Big::Bases { n: 5500, variable: true },
+        2 => Big::LigIndex { index: 32767 },
+        3 => Big::Bases { n: 2000, variable: false },
+        4 => Big::LigIndex { index: 300 },
+        _ => Big::Bases { n: 100 + 37 * (i % 50), variable: i % 2 == 0 },
+    }
+}
+
+pub fn big_design(case: Big) -> design::Design {
+    let mut rng = Rng::new(1);
+    let mut o = design::GenOpts::default();
+    o.max_axes = 1; o.max_glyphs = 2; o.composites = false; o.sparse = false; o.intermediate = false;
+    let mut d = design::gen_design(&mut rng, &o);
+    d.masters.truncate(1);
+    let dm = d.default_master;
+    let mut order = vec![];
+    d.masters[dm].glyphs.clear();
+    d.codepoints.clear();
+    let mut variable = false;
+    match case {
+        Big::Bases { n, variable: v } => {
+            variable = v;
+            for i in 0..n {
+                let name = format!("b{i}");
+                let g = design::GlyphDef { advance: 500.0, anchors: vec![("top".into(), (i % 3000) as f64, 500.0 + (i / 3000) as f64)], ..Default::default() };
+                d.masters[dm].glyphs.insert(name.clone(), g);
+                order.push(name);
             }
-            d.masters.push(m);
         }
-        let tmp = build::tmpdir("c10probe2");
+        Big::LigIndex { index } => {
+            let g = design::GlyphDef { advance: 500.0, anchors: vec![("top_1".into(), 10.0, 20.0), (format!("top_{index}"), 100.0, 200.0)], ..Default::default() };
+            d.masters[dm].glyphs.insert("f_i".into(), g);
+            order.push("f_i".into());
+        }
+    }
+    d.masters[dm].glyphs.insert("acutecomb".into(), design::GlyphDef { advance: 0.0, anchors: vec![("_top".into(), 50.0, 60.0)], ..Default::default() });
+    order.push("acutecomb".into());
+    d.glyph_order = Some(order);
+    if variable {
+        // a second master at the other end of the axis with every anchor moved by a different amount
+        let a = &d.axes[0];
+        let other = if a.default < a.max { a.max } else { a.min };
+        let mut m = d.masters[dm].clone();
+        m.name = "M1".into(); m.style = "Other".into(); m.loc = vec![other];
+        for (i, (_, g)) in m.glyphs.iter_mut().enumerate() {
+            for an in g.anchors.iter_mut() { an.1 += 1.0 + (i % 97) as f64; an.2 += 1.0 + (i % 89) as f64; }
+        }
+        d.masters.push(m);
+    }
+    d
+}
+
+/// `c10big`: sources whose mark lookups are large. The line carries the size parameters instead of the whole design
+/// (`VERIF_KEEP=<dir>` copies the generated UFO/designspace there), the compile result and, read back from the font:
+/// whether GPOS exists, and which attaching glyphs the mark-to-base / mark-to-ligature subtables cover for the mark.
+pub fn run_big(args: &Args) {
+    crate::run_cases("c10big", args, move |i| {
+        let case = big_case(i);
+        let d = big_design(case);
+        let names: Vec<String> = d.glyph_order.clone().unwrap();
+        let n_attaching = names.len() - 1;
+        let tmp = build::tmpdir("c10big");
         let ds = write::write_design(tmp.path(), &d);
-        let t0 = std::time::Instant::now();
+        if let Ok(keep) = std::env::var("VERIF_KEEP") {
+            let _ = std::process::Command::new("cp").arg("-r").arg(tmp.path()).arg(&keep).status();
+        }
         let res = build::compile(&ds, &build::BuildOpts::default());
-        let dt = t0.elapsed().as_millis();
+        let mut f = vec![match case {
+            Big::Bases { n, variable } => S::kv("case", [S::atom("bases"), S::usize(n), S::bool(variable)]),
+            Big::LigIndex { index } => S::kv("case", [S::atom("ligindex"), S::usize(index), S::bool(false)]),
+        }, S::k1("attaching", S::usize(n_attaching))];
         match res {
             Ok(bytes) => {
                 let font = FontRef::new(&bytes).unwrap();
-                let mut covered = 0usize; let mut subtables = 0usize; let mut lookups = 0usize;
+                let fnames = dump::names(&font);
+                let mark_gid = fnames.iter().position(|n| n == "acutecomb").unwrap_or(usize::MAX);
+                let mut covered: Vec<usize> = vec![];
                 if let Ok(gpos) = font.gpos() {
                     if let Ok(ll) = gpos.lookup_list() {
                         for lk in ll.lookups().iter().flatten() {
-                            if let Ok(PositionSubtables::MarkToBase(st)) = lk.subtables() {
-                                lookups += 1;
-                                for t in st.iter().flatten() { subtables += 1; covered += t.base_coverage().map(|c| c.iter().count()).unwrap_or(0); }
+                            match lk.subtables() {
+                                Ok(PositionSubtables::MarkToBase(st)) => for t in st.iter().flatten() {
+                                    if t.mark_coverage().map(|c| c.iter().any(|g| g.to_u16() as usize == mark_gid)).unwrap_or(false) {
+                                        covered.extend(t.base_coverage().map(|c| c.iter().map(|g| g.to_u16() as usize).collect::<Vec<_>>()).unwrap_or_default());
+                                    }
+                                },
+                                Ok(PositionSubtables::MarkToLig(st)) => for t in st.iter().flatten() {
+                                    if t.mark_coverage().map(|c| c.iter().any(|g| g.to_u16() as usize == mark_gid)).unwrap_or(false) {
+                                        covered.extend(t.ligature_coverage().map(|c| c.iter().map(|g| g.to_u16() as usize).collect::<Vec<_>>()).unwrap_or_default());
+                                    }
+                                },
+                                _ => {}
                             }
                         }
                     }
                 }
-                vec![S::k1("result", S::atom("ok")), S::k1("bytes", S::usize(bytes.len())), S::k1("ms", S::usize(dt as usize)),
-                     S::k1("has_gpos", S::bool(font.gpos().is_ok())), S::k1("markbase_lookups", S::usize(lookups)),
-                     S::k1("subtables", S::usize(subtables)), S::k1("bases_covered", S::usize(covered)), S::k1("bases_in_source", S::usize(n))]
+                covered.sort(); covered.dedup();
+                f.push(S::k1("result", S::atom("ok")));
+                f.push(S::k1("glyphs", S::usize(fnames.len())));
+                f.push(S::k1("has_gpos", S::bool(font.gpos().is_ok())));
+                f.push(S::k1("has_gdef", S::bool(font.gdef().is_ok())));
+                f.push(S::k1("covered", S::usize(covered.len())));
             }
-            Err(e) => vec![S::kv("result", [S::atom("err"), S::atom(e.replace(' ', "_").chars().take(300).collect::<String>())]), S::k1("ms", S::usize(dt as usize))],
+            Err(e) => f.push(S::kv("result", [S::atom("err"), S::str(&e)])),
         }
+        f
     });
 }
